@@ -321,6 +321,12 @@ func solveAll(obls []*Obligation, timeout int, seed int, agree bool, par int) []
 				out[i] = r
 				return
 			}
+			if o.Kind == "prove" && syntacticallyImplied(o.vc, o.Hyp, goal) {
+				r.Status = "discharged"
+				r.Solve = SolveResult{Status: "unsat", Winner: "syntactic (goal is a conjunct of the hypothesis)"}
+				out[i] = r
+				return
+			}
 			q := o.vc.Query(o.Hyp, goal, -1, true)
 			t0 := time.Now()
 			tmo := timeout
@@ -473,4 +479,32 @@ func (c *FnCtx) relock(st *State, mu Term) {
 		}
 		c.noFrame--
 	}
+}
+
+// syntacticallyImplied: the goal is literally one of the conjuncts of the hypothesis (after
+// expanding named path conditions). Used for preconditions that are passed through unchanged.
+func syntacticallyImplied(vc *VC, hyp, goal Term) bool {
+	seen := map[string]bool{}
+	var visit func(s string, depth int) bool
+	visit = func(s string, depth int) bool {
+		if s == goal.S {
+			return true
+		}
+		if depth > 60 || seen[s] {
+			return false
+		}
+		seen[s] = true
+		if d, ok := vc.nameDefs[s]; ok {
+			return visit(d, depth+1)
+		}
+		if strings.HasPrefix(s, "(and ") {
+			for _, a := range splitArgs(s)[1:] {
+				if visit(a, depth+1) {
+					return true
+				}
+			}
+		}
+		return false
+	}
+	return visit(hyp.S, 0)
 }
